@@ -30,6 +30,8 @@ PURE_DOTTED = {
     "itertools.chain.from_iterable", "np.iscomplexobj", "os.path.relpath", "os.environ.get",
     "os.path.expanduser",
 }
+MODULE_NAMES = {"os", "shutil", "pickle", "random", "glob", "uuid", "time", "joblib", "np", "xr", "pd", "itertools", "functools", "copy", "re",
+                "math", "warnings", "importlib", "pathlib", "sys", "inspect", "logging"}
 EXC_SUFFIX = ("Error", "Exception", "Interrupt", "StopIteration", "Warning")
 
 
@@ -49,6 +51,8 @@ def call_is_pure(call, spec_names=()):
         return f.id in PURE_NAMES or f.id.endswith(EXC_SUFFIX) or f.id in spec_names
     if d in PURE_DOTTED:
         return True
+    if d and d.split(".")[0] in MODULE_NAMES:
+        return False       # a function of a library module (os.replace), not a string/dict method of that name
     if isinstance(f, ast.Attribute):
         if f.attr == "get" and not call.args:
             return False   # future.get(), not dict.get(key)
